@@ -1489,3 +1489,31 @@ FUNCTIONS += [
            stmt_rules=[(r'^H_OF_P\(\)$', 'acts := acts ++ ["h(p)"]')],
            ret_rules=[(r'^DEFAULT_RETURN\(\)$', 'acts ++ ["return default_return<promise_value_type>()"]')]),
 ]
+
+# ----------------------------------------------------------------------------------------------
+# The clause plumbing of the expectation statement: what `.WITH(…)`, `.SIDE_EFFECT(…)`, `.RETURN(…)`, `.THROW(…)` do at run
+# time once their static_asserts (read as tables by tools/translate.py) have passed — one call into the matcher each.
+# The compile-time lines (static_assert, constexpr bool, using) are dropped from the body before it is read.
+PLUMB_DROP = [(r'static_assert\((?:[^()]|\((?:[^()]|\([^()]*\))*\))*\);', ''),
+              (r'constexpr\s+bool\s+\w+\s*=[^;]*;', ''), (r'constexpr\s+auto\s+\w+\s*=[^;]*;', ''),
+              (r'using\s+\w+\s*=[^;]*;', ''),
+              (r'std::forward<\w+>\((\w+)\)', r'\1'), (r'std::move\(m\)\.matcher', 'm.matcher'), (r'std::move\(m\.matcher\)', 'm.matcher'),
+              (r'return\s*\{\s*m\.matcher\s*\}\s*;', 'return;'), (r'return\s+std::move\(m\)\s*;', 'return;'),
+              (r'tag\{\}', 'tag')]
+PLUMB = dict(lean_sig=': List Act', acts=True, prologue=['let mut acts : List Act := []'], epilogue='return acts', void_result='acts',
+             file=MOCK, no_respell=True)
+
+FUNCTIONS += [
+    dict(PLUMB, name='with_action', cxx='with::action', module='WithAction', pre=PLUMB_DROP,
+         header=r'struct with\s*\{.*?\n\s*action\(\s*call_modifier<Matcher, modifier_tag, Parent>&& m,\s*const char\* str,\s*D&& d\)'),
+    dict(PLUMB, name='sideeffect_action', cxx='sideeffect::action', module='SideeffectAction', pre=PLUMB_DROP,
+         header=r'struct sideeffect\s*\{.*?\n\s*action\(\s*call_modifier<Matcher, modifier_tag, Parent>&& m,\s*A&& a\)'),
+    dict(PLUMB, name='handle_return_action', cxx='handle_return::action (run-time part)', module='HandleReturnAction', pre=PLUMB_DROP,
+         header=r'struct handle_return\s*\{.*?\n\s*action\(\s*call_modifier<Matcher, modifier_tag, Parent>&& m,\s*H&& h\)'),
+    dict(PLUMB, name='handle_throw_action', cxx='handle_throw::action (run-time part)', module='HandleThrowAction',
+         pre=PLUMB_DROP + [(r'auto handler = throw_handler_t<H, signature>\(h\);', 'MAKE_THROW_HANDLER(h);')],
+         header=r'struct handle_throw\s*\{.*?\n\s*action\(call_modifier<Matcher, modifier_tag, Parent>&& m,\s*H&& h\)'),
+    dict(PLUMB, name='set_return', cxx='call_matcher::set_return(std::true_type, h)', module='SetReturn',
+         pre=PLUMB_DROP + [(r'new handler\(h\)', 'NEW_HANDLER(h)')],
+         header=r'set_return\(\s*std::true_type,\s*T&& h\)'),
+]
